@@ -35,6 +35,10 @@ structure Rel (h : HcPair F) (s : Sys) : Prop where
   seen : ∀ x ∈ h.bases, x ∈ s.seen
   /-- every fragment datagram of every emitted packet is in the `Sys` network -/
   net : ∀ i d, IsFrag s.pend i d → (i, d) ∈ s.net
+  /-- same emission history, with send modes -/
+  em : s.hist.emitted = h.em
+  /-- every recorded sync value of the pair can be delivered in `Sys` -/
+  syncs : ∀ x ∈ h.syncs, x ∈ s.syncs
 
 theorem runS_append (s : Sys) (a b : List SOp) :
     runS s (a ++ b) = bindR (runS s a) fun s' => runS s' b := by
@@ -66,7 +70,9 @@ theorem sim_emit (s : Sys) (ps ps1 : PSend.State) (f : Nat) (r : Option (Pending
     (hnet : ∀ i d, IsFrag s.pend i d → (i, d) ∈ s.net) (he : emit ps f = .ok (ps1, r)) :
     ∃ s', stepS s (.emit f) = .ok s' ∧ s'.snd = erase ps1 ∧ s'.pend = s.pend ++ (r.map Prod.fst).toList ∧
       s'.hist.enqueued = s.hist.enqueued ∧ s'.hist.emitted.length = s'.pend.length ∧
-      s'.rcv = s.rcv ∧ s'.seen = s.seen ∧ (∀ i d, IsFrag s'.pend i d → (i, d) ∈ s'.net) := by
+      s'.rcv = s.rcv ∧ s'.seen = s.seen ∧ (∀ i d, IsFrag s'.pend i d → (i, d) ∈ s'.net) ∧
+      s'.hist.emitted = s.hist.emitted ++ (r.map fun v => mkEmitted ps f v.1).toList ∧
+      s'.syncs = s.syncs := by
   have he' : emit s.snd f = .ok (erase ps1, r) := by
     rw [hs, emit_erase, he]; rfl
   have hem : emitted? s.snd f = r.map Prod.fst := by
@@ -79,17 +85,19 @@ theorem sim_emit (s : Sys) (ps ps1 : PSend.State) (f : Nat) (r : Option (Pending
   cases r with
   | none =>
     simp only [bindR_ok, Option.map_none, Option.toList_none, List.append_nil, List.flatMap_nil]
-    exact ⟨_, rfl, rfl, rfl, rfl, hel, rfl, rfl, hnet⟩
+    exact ⟨_, rfl, rfl, rfl, rfl, hel, rfl, rfl, hnet, rfl, rfl⟩
   | some v =>
     obtain ⟨p, b⟩ := v
     simp only [bindR_ok, Option.map_some, Option.toList_some, List.flatMap_cons, List.flatMap_nil,
       List.append_nil]
-    refine ⟨_, rfl, rfl, rfl, rfl, ?_, rfl, rfl, ?_⟩
+    refine ⟨_, rfl, rfl, rfl, rfl, ?_, rfl, rfl, ?_, ?_, rfl⟩
     · simp only [List.length_append, List.length_cons, List.length_nil]; omega
     · intro i d hi
       rcases isFrag_append_cases hi with h1 | ⟨_, h2⟩
       · exact List.mem_append_left _ (hnet i d h1)
       · exact List.mem_append_right _ h2
+    · show s.hist.emitted ++ [mkEmitted s.snd f p] = s.hist.emitted ++ [mkEmitted ps f p]
+      rw [hs]; rfl
 
 /-- A chain of `emit` calls of `A` (one `flush`) is a sequence of `emit` steps of `Sys`. -/
 theorem sim_emits {f : Nat} {ps ps' : PSend.State} {l : List Pending} (hem : Emits f ps ps' l) (s : Sys)
@@ -97,15 +105,27 @@ theorem sim_emits {f : Nat} {ps ps' : PSend.State} {l : List Pending} (hem : Emi
     (hnet : ∀ i d, IsFrag s.pend i d → (i, d) ∈ s.net) :
     ∃ sops s', runS s sops = .ok s' ∧ s'.snd = erase ps' ∧ s'.pend = s.pend ++ l ∧
       s'.hist.enqueued = s.hist.enqueued ∧ s'.hist.emitted.length = s'.pend.length ∧
-      s'.rcv = s.rcv ∧ s'.seen = s.seen ∧ (∀ i d, IsFrag s'.pend i d → (i, d) ∈ s'.net) := by
+      s'.rcv = s.rcv ∧ s'.seen = s.seen ∧ (∀ i d, IsFrag s'.pend i d → (i, d) ∈ s'.net) ∧
+      s'.hist.emitted = s.hist.emitted ++ replayEmit l.length ps f ∧ s'.syncs = s.syncs := by
   induction hem generalizing s with
-  | nil ps => exact ⟨[], s, rfl, hs, by simp, rfl, hel, rfl, rfl, hnet⟩
-  | cons he _ ih =>
-    obtain ⟨s1, h1, a1, a2, a3, a4, a5, a6, a7⟩ := sim_emit s _ _ f _ hs hel hnet he
-    obtain ⟨sops, s2, h2, b1, b2, b3, b4, b5, b6, b7⟩ := ih s1 a1 a4 a7
-    refine ⟨.emit f :: sops, s2, ?_, b1, ?_, b3.trans a3, b4, b5.trans a5, b6.trans a6, b7⟩
+  | nil ps => exact ⟨[], s, rfl, hs, by simp, rfl, hel, rfl, rfl, hnet, by simp [replayEmit], rfl⟩
+  | cons he hch ih =>
+    rename_i ps0 ps1 ps2 r l
+    obtain ⟨s1, h1, a1, a2, a3, a4, a5, a6, a7, a8, a9⟩ := sim_emit s _ _ f _ hs hel hnet he
+    obtain ⟨sops, s2, h2, b1, b2, b3, b4, b5, b6, b7, b8, b9⟩ := ih s1 a1 a4 a7
+    refine ⟨.emit f :: sops, s2, ?_, b1, ?_, b3.trans a3, b4, b5.trans a5, b6.trans a6, b7, ?_, b9.trans a9⟩
     · simp only [runS, h1, bindR_ok]; exact h2
     · rw [b2, a2, List.append_assoc]
+    · rw [b8, a8, List.append_assoc]
+      congr 1
+      cases r with
+      | none =>
+        obtain ⟨rfl, _⟩ := hch.of_none (emit_none_again _ _ _ he)
+        simp [replayEmit]
+      | some v =>
+        obtain ⟨p, b⟩ := v
+        simp only [Option.map_some, Option.toList_some, List.cons_append, List.nil_append,
+          List.length_cons, replayEmit, he]
 
 /-! ### receiver steps -/
 
@@ -133,12 +153,12 @@ theorem sim_deliver {W M : Nat} (dgs : List Datagram) (s : Sys) (pr' : PRecv.Sta
     (hfresh : ∀ d ∈ dgs, ∃ i, (i, d) ∈ s.net ∧ s.rcv.adv + W ≤ i + 2^20)
     (hf : dgs.foldlM PRecv.handleDatagram s.rcv.st = .ok pr') :
     ∃ sops s', runS s sops = .ok s' ∧ s'.rcv = { s.rcv with st := pr' } ∧ s'.snd = s.snd ∧
-      s'.hist = s.hist ∧ s'.pend = s.pend ∧ s'.net = s.net ∧ s'.seen = s.seen := by
+      s'.hist = s.hist ∧ s'.pend = s.pend ∧ s'.net = s.net ∧ s'.seen = s.seen ∧ s'.syncs = s.syncs := by
   induction dgs generalizing s with
   | nil =>
     simp only [List.foldlM_nil, pure, Except.pure, Except.ok.injEq] at hf
     subst hf
-    exact ⟨[], s, rfl, rfl, rfl, rfl, rfl, rfl, rfl⟩
+    exact ⟨[], s, rfl, rfl, rfl, rfl, rfl, rfl, rfl, rfl⟩
   | cons d dgs ih =>
     rw [List.foldlM_cons] at hf
     obtain ⟨s1, h1, hi1⟩ := PRecv.handleDatagram_inv hinv d
@@ -151,9 +171,9 @@ theorem sim_deliver {W M : Nat} (dgs : List Datagram) (s : Sys) (pr' : PRecv.Sta
       rw [hinv.wsz]; exact hfr
     have hstep : stepS s (.deliver k) = .ok { s with rcv := { s.rcv with st := s1 } } := by
       simp only [stepS, hk, if_pos hF, PRecv.stepT, h1, bindR_ok]
-    obtain ⟨sops, s2, h2, b1, b2, b3, b4, b5, b6⟩ := ih { s with rcv := { s.rcv with st := s1 } } hi1
+    obtain ⟨sops, s2, h2, b1, b2, b3, b4, b5, b6, b7⟩ := ih { s with rcv := { s.rcv with st := s1 } } hi1
       (fun d' hd' => hfresh d' (List.mem_cons_of_mem _ hd')) hf
-    refine ⟨.deliver k :: sops, s2, ?_, b1, b2, b3, b4, b5, b6⟩
+    refine ⟨.deliver k :: sops, s2, ?_, b1, b2, b3, b4, b5, b6, b7⟩
     simp only [runS, hstep, bindR_ok]; exact h2
 
 theorem filterMap_lift (a b : Nat) (evs : List PRecv.Ev) :
@@ -169,7 +189,7 @@ theorem sim_recv (s : Sys) (pr' : PRecv.State) (out : List (List Nat))
       s'.rcv.adv = s.rcv.adv + pidSub pr'.baseId s.rcv.st.baseId ∧
       s'.rcv.log.filterMap LogE.data = s.rcv.log.filterMap LogE.data ++ out ∧
       s'.seen = s.seen ++ [(s.rcv.adv + pidSub pr'.baseId s.rcv.st.baseId, pr'.baseId)] ∧
-      s'.snd = s.snd ∧ s'.hist = s.hist ∧ s'.pend = s.pend ∧ s'.net = s.net := by
+      s'.snd = s.snd ∧ s'.hist = s.hist ∧ s'.pend = s.pend ∧ s'.net = s.net ∧ s'.syncs = s.syncs := by
   have he := PRecv.receiveT_erase s.rcv.st
   rw [hr] at he
   cases hT : receiveT s.rcv.st with
@@ -179,14 +199,15 @@ theorem sim_recv (s : Sys) (pr' : PRecv.State) (out : List (List Nat))
     simp only [Except.map, Except.ok.injEq, PRecv.eraseP, Prod.mk.injEq] at he
     obtain ⟨e1, e2⟩ := he
     simp only [stepS, PRecv.stepT, hT, bindR_ok]
-    refine ⟨_, rfl, e1, by rw [e1], ?_, by rw [e1], rfl, rfl, rfl, rfl⟩
+    refine ⟨_, rfl, e1, by rw [e1], ?_, by rw [e1], rfl, rfl, rfl, rfl, rfl⟩
     simp only [List.filterMap_append, filterMap_lift, e2]
 
 /-! ### one step of the pair -/
 
 theorem rel_of_same {h h' : HcPair F} {s : Sys} (hr : Rel h s) (hA : h'.A.ps = h.A.ps)
     (hB : h'.B.pr = h.B.pr) (hp : h'.pend = h.pend) (hs : h'.sent = h.sent) (ha : h'.advB = h.advB)
-    (ho : h'.outs = h.outs) (hb : ∀ x ∈ h'.bases, x ∈ h.bases) : Rel h' s where
+    (ho : h'.outs = h.outs) (hb : ∀ x ∈ h'.bases, x ∈ h.bases) (he : h'.em = h.em)
+    (hy : h'.syncs = h.syncs) : Rel h' s where
   snd := by rw [hA]; exact hr.snd
   pend := by rw [hp]; exact hr.pend
   enq := by rw [hs]; exact hr.enq
@@ -196,6 +217,8 @@ theorem rel_of_same {h h' : HcPair F} {s : Sys} (hr : Rel h s) (hA : h'.A.ps = h
   log := by rw [ho]; exact hr.log
   seen := fun x hx => hr.seen x (hb x hx)
   net := hr.net
+  em := by rw [he]; exact hr.em
+  syncs := by rw [hy]; exact hr.syncs
 
 /-- **The simulation step.** -/
 theorem sim_step (ops : FloatOps F) {h h' : HcPair F} {s : Sys} (hi : PairInv h) (hr : Rel h s)
@@ -218,7 +241,9 @@ theorem sim_step (ops : FloatOps F) {h h' : HcPair F} {s : Sys} (hi : PairInv h)
         adv := hr.adv
         log := hr.log
         seen := hr.seen
-        net := hr.net }
+        net := hr.net
+        em := hr.em
+        syncs := hr.syncs }
     · cases hs; exact ⟨[], s, rfl, hr⟩
   | flushA =>
     simp only [stepP] at hs
@@ -229,19 +254,70 @@ theorem sim_step (ops : FloatOps F) {h h' : HcPair F} {s : Sys} (hi : PairInv h)
       rw [hf, bindR_ok] at hs
       cases hs
       obtain ⟨l, hem, _, _, _⟩ := flush_spec h.A a' out hi.a hf
+      have hsy := flush_sync_spec h.A a' out hi.a hf
       have hnp : newPackets h.A.ps a'.ps = l := (hem.newPackets hi.a).2
-      obtain ⟨sops, s', h1, b1, b2, b3, b4, b5, b6, b7⟩ := sim_emits hem s hr.snd hr.elen hr.net
-      refine ⟨sops, s', h1, ?_⟩
-      exact {
-        snd := b1
-        pend := by show s'.pend = h.pend ++ newPackets h.A.ps a'.ps; rw [b2, hr.pend, hnp]
-        enq := by rw [b3]; exact hr.enq
-        elen := b4
-        rcv := by rw [b5]; exact hr.rcv
-        adv := by rw [b5]; exact hr.adv
-        log := by rw [b5]; exact hr.log
-        seen := by rw [b6]; exact hr.seen
-        net := b7 }
+      have hlen : a'.ps.win.length - h.A.ps.win.length = l.length := by
+        obtain ⟨ws, hws⟩ := hem.win_prefix
+        have : (a'.ps.win.drop h.A.ps.win.length).length = l.length := by
+          rw [← hnp]; unfold newPackets; rw [List.length_map]
+        rw [List.length_drop] at this
+        exact this
+      obtain ⟨sops, s1, h1, b1, b2, b3, b4, b5, b6, b7, b8, b9⟩ := sim_emits hem s hr.snd hr.elen hr.net
+      have hem1 : s1.hist.emitted =
+          h.em ++ replayEmit (a'.ps.win.length - h.A.ps.win.length) h.A.ps h.A.flushId := by
+        rw [b8, hr.em, hlen]
+      have hpend1 : s1.pend = h.pend ++ newPackets h.A.ps a'.ps := by rw [b2, hr.pend, hnp]
+      -- the relation without the new sync entries
+      have base : ∀ sy sy2, (∀ x ∈ sy, x ∈ sy2) →
+          Rel { h with A := a', wireAB := h.wireAB ++ out, pend := h.pend ++ newPackets h.A.ps a'.ps,
+                       em := h.em ++ replayEmit (a'.ps.win.length - h.A.ps.win.length) h.A.ps h.A.flushId,
+                       wireT := h.wireT ++
+                         List.replicate out.length (h.pend ++ newPackets h.A.ps a'.ps).length,
+                       syncs := sy } { s1 with syncs := sy2 } := by
+        intro sy sy2 hsy'
+        exact {
+          snd := b1
+          pend := hpend1
+          enq := by rw [b3]; exact hr.enq
+          elen := b4
+          rcv := by rw [b5]; exact hr.rcv
+          adv := by rw [b5]; exact hr.adv
+          log := by rw [b5]; exact hr.log
+          seen := by rw [b6]; exact hr.seen
+          net := b7
+          em := hem1
+          syncs := hsy' }
+      split
+      · rename_i hok
+        -- `SyncOkP` holds after the flush: take the `sync` step of `Sys`
+        have hsok : SyncOk s1 := by
+          intro x hx hrel
+          rw [hem1] at hx
+          have := hok x hx hrel
+          unfold RecvdP at this
+          unfold Recvd
+          rw [b5, hr.adv, hr.rcv]
+          exact Or.inr this
+        have hstep : stepS s1 .sync =
+            .ok { s1 with syncs := s1.syncs ++ [(s1.hist.emitted.length, s1.snd.nextId)] } := by
+          simp only [stepS, if_pos hsok]
+        refine ⟨sops ++ [.sync], _, by rw [runS_append, h1, bindR_ok]; exact runS_single _ _ _ hstep, ?_⟩
+        refine base _ _ ?_
+        intro x hx
+        rcases List.mem_append.mp hx with hx | hx
+        · exact List.mem_append_left _ (by rw [b9]; exact hr.syncs x hx)
+        · refine List.mem_append_right _ ?_
+          simp only [syncIds, List.mem_filterMap] at hx
+          obtain ⟨b, hb, hx⟩ := hx
+          split at hx
+          · rename_i nf np hdec
+            simp only [Option.some.injEq] at hx
+            obtain ⟨e1, _, _⟩ := hsy b hb nf np hdec
+            rw [← hx, e1, b4, hpend1, b1]
+            exact List.mem_singleton.mpr rfl
+          · cases hx
+      · rw [List.append_nil]
+        exact ⟨sops, s1, h1, base h.syncs s1.syncs (by rw [b9]; exact hr.syncs)⟩
   | stepA now =>
     simp only [stepP] at hs
     cases hf : step ops h.A now with
@@ -250,7 +326,7 @@ theorem sim_step (ops : FloatOps F) {h h' : HcPair F} {s : Sys} (hi : PairInv h)
       rw [hf, bindR_ok] at hs
       cases hs
       obtain ⟨hps, _⟩ := step_spec ops h.A a' now hf
-      exact ⟨[], s, rfl, rel_of_same hr hps rfl rfl rfl rfl rfl (fun x hx => hx)⟩
+      exact ⟨[], s, rfl, rel_of_same hr hps rfl rfl rfl rfl rfl (fun x hx => hx) rfl rfl⟩
   | stepB now =>
     simp only [stepP] at hs
     cases hf : step ops h.B now with
@@ -259,7 +335,7 @@ theorem sim_step (ops : FloatOps F) {h h' : HcPair F} {s : Sys} (hi : PairInv h)
       rw [hf, bindR_ok] at hs
       cases hs
       obtain ⟨_, hpr⟩ := step_spec ops h.B b' now hf
-      exact ⟨[], s, rfl, rel_of_same hr rfl hpr rfl rfl rfl rfl (fun x hx => hx)⟩
+      exact ⟨[], s, rfl, rel_of_same hr rfl hpr rfl rfl rfl rfl (fun x hx => hx) rfl rfl⟩
   | flushB =>
     simp only [stepP] at hs
     cases hf : flush h.B with
@@ -270,7 +346,7 @@ theorem sim_step (ops : FloatOps F) {h h' : HcPair F} {s : Sys} (hi : PairInv h)
       cases hs
       obtain ⟨pendB, hpb⟩ := hi.b
       obtain ⟨l, _, _, hpr, _⟩ := flush_spec h.B b' out hpb hf
-      exact ⟨[], s, rfl, rel_of_same hr rfl hpr rfl rfl rfl rfl (fun x hx => hx)⟩
+      exact ⟨[], s, rfl, rel_of_same hr rfl hpr rfl rfl rfl rfl (fun x hx => hx) rfl rfl⟩
   | recvB =>
     simp only [stepP] at hs
     cases hf : receive h.B with
@@ -281,7 +357,7 @@ theorem sim_step (ops : FloatOps F) {h h' : HcPair F} {s : Sys} (hi : PairInv h)
       cases hs
       obtain ⟨_, hrc⟩ := receive_spec h.B b' out hf
       rw [← hr.rcv] at hrc
-      obtain ⟨s', h1, c1, c2, c3, c4, c5, c6, c7, c8⟩ := sim_recv s b'.pr out hrc
+      obtain ⟨s', h1, c1, c2, c3, c4, c5, c6, c7, c8, c9⟩ := sim_recv s b'.pr out hrc
       refine ⟨[.recv], s', runS_single _ _ _ h1, ?_⟩
       exact {
         snd := by rw [c5]; exact hr.snd
@@ -299,7 +375,9 @@ theorem sim_step (ops : FloatOps F) {h h' : HcPair F} {s : Sys} (hi : PairInv h)
           · exact List.mem_append_left _ (hr.seen x hx)
           · refine List.mem_append_right _ ?_
             rw [hr.adv, hr.rcv]; exact hx
-        net := by rw [c7, c8]; exact hr.net }
+        net := by rw [c7, c8]; exact hr.net
+        em := by rw [c6]; exact hr.em
+        syncs := by rw [c9]; exact hr.syncs }
   | deliverAB k =>
     simp only [stepP] at hs
     cases hk : h.wireAB[k]? with
@@ -318,12 +396,13 @@ theorem sim_step (ops : FloatOps F) {h h' : HcPair F} {s : Sys} (hi : PairInv h)
         -- a delivery that leaves `B.pr` alone needs no `Sys` step
         have hsame : b'.pr = h.B.pr → ∃ sops s', runS s sops = .ok s' ∧
             Rel { h with B := b', fed := h.fed ++ fedBy h.B bytes,
+                         accIds := h.accIds ++ accBy h.B bytes,
                          advB := h.advB + pidSub b'.pr.baseId h.B.pr.baseId,
                          bases := h.bases ++ [(h.advB + pidSub b'.pr.baseId h.B.pr.baseId, b'.pr.baseId)] } s' := by
           intro hpe
           have h0 : h.advB + pidSub b'.pr.baseId h.B.pr.baseId = h.advB := by
             rw [hpe, PRecv.pidSub_self]; rfl
-          refine ⟨[], s, rfl, rel_of_same hr rfl hpe rfl rfl h0 rfl ?_⟩
+          refine ⟨[], s, rfl, rel_of_same hr rfl hpe rfl rfl h0 rfl ?_ rfl rfl⟩
           intro x hx
           rcases List.mem_append.mp hx with hx | hx
           · exact hx
@@ -333,17 +412,47 @@ theorem sim_step (ops : FloatOps F) {h h' : HcPair F} {s : Sys} (hi : PairInv h)
         | skip h1 _ _ _ _ _ => exact hsame (by rw [h1])
         | ack fb pb acks ps1 _ h2 _ _ _ _ => exact hsame h2
         | sync nf np h1 _ _ _ h5 =>
-          refine hsame ?_
           cases np with
           | none =>
+            refine hsame ?_
             simp only [resyncTo, Except.ok.injEq] at h5
             exact h5.symm
           | some id =>
-            have := hoks nf id h1
             simp only [resyncTo] at h5
-            rw [this] at h5
-            simp only [Except.ok.injEq] at h5
-            exact h5.symm
+            rcases hoks nf id h1 with hno | ⟨n, hmem, hfr⟩
+            · refine hsame ?_
+              rw [hno] at h5
+              simp only [Except.ok.injEq] at h5
+              exact h5.symm
+            · -- a fresh sync frame emitted under `SyncOkP`: the `resync` step of `Sys`
+              obtain ⟨j, hj⟩ := List.getElem?_of_mem (hr.syncs _ hmem)
+              have hSF : SyncFresh s n := by
+                unfold SyncFresh
+                rw [hr.adv, hr.rcv]; exact hfr
+              have h5' : PRecv.resynchronize s.rcv.st id = .ok b'.pr := by rw [hr.rcv]; exact h5
+              refine ⟨[.resync j], _, runS_single _ _ _ (by
+                simp only [stepS, hj, if_pos hSF, PRecv.stepT, h5', bindR_ok]; rfl), ?_⟩
+              exact {
+                snd := hr.snd
+                pend := hr.pend
+                enq := hr.enq
+                elen := hr.elen
+                rcv := rfl
+                adv := by
+                  show s.rcv.adv + pidSub b'.pr.baseId s.rcv.st.baseId =
+                    h.advB + pidSub b'.pr.baseId h.B.pr.baseId
+                  rw [hr.adv, hr.rcv]
+                log := hr.log
+                seen := by
+                  intro x hx
+                  show x ∈ s.seen ++ [(s.rcv.adv + pidSub b'.pr.baseId s.rcv.st.baseId, b'.pr.baseId)]
+                  rcases List.mem_append.mp hx with hx | hx
+                  · exact List.mem_append_left _ (hr.seen x hx)
+                  · refine List.mem_append_right _ ?_
+                    rw [hr.adv, hr.rcv]; exact hx
+                net := hr.net
+                em := hr.em
+                syncs := hr.syncs }
         | data id nonce dgs h1 _ h3 _ h5 =>
           have hbase : b'.pr.baseId = h.B.pr.baseId := foldDg_base _ _ _ hpr h5
           have h0 : h.advB + pidSub b'.pr.baseId h.B.pr.baseId = h.advB := by
@@ -358,7 +467,7 @@ theorem sim_step (ops : FloatOps F) {h h' : HcPair F} {s : Sys} (hi : PairInv h)
               rw [hr.adv, ← hpr.wsz]; exact hle
             · cases hd
           rw [← hr.rcv] at h5 hpr
-          obtain ⟨sops, s', r1, b1, b2, b3, b4, b5, b6⟩ := sim_deliver _ s b'.pr hpr hfresh h5
+          obtain ⟨sops, s', r1, b1, b2, b3, b4, b5, b6, b7⟩ := sim_deliver _ s b'.pr hpr hfresh h5
           refine ⟨sops, s', r1, ?_⟩
           exact {
             snd := by rw [b2]; exact hr.snd
@@ -374,7 +483,9 @@ theorem sim_step (ops : FloatOps F) {h h' : HcPair F} {s : Sys} (hi : PairInv h)
               rcases List.mem_append.mp hx with hx | hx
               · exact hr.seen x hx
               · rw [List.mem_singleton.mp hx, h0, hbase]; exact hr.seen _ hi.cur
-            net := by rw [b4, b5]; exact hr.net }
+            net := by rw [b4, b5]; exact hr.net
+            em := by rw [b3]; exact hr.em
+            syncs := by rw [b7]; exact hr.syncs }
   | deliverBA k =>
     simp only [stepP] at hs
     cases hk : h.wireBA[k]? with
@@ -390,7 +501,7 @@ theorem sim_step (ops : FloatOps F) {h h' : HcPair F} {s : Sys} (hi : PairInv h)
         cases hs
         have hsame : a'.ps = h.A.ps → ∃ sops s', runS s sops = .ok s' ∧
             Rel { h with A := a', acks := h.acks ++ ackBy bytes } s' :=
-          fun hpe => ⟨[], s, rfl, rel_of_same hr hpe rfl rfl rfl rfl rfl (fun x hx => hx)⟩
+          fun hpe => ⟨[], s, rfl, rel_of_same hr hpe rfl rfl rfl rfl rfl (fun x hx => hx) rfl rfl⟩
         have hv := dispatch_view h.A a' bytes hf
         cases hv with
         | skip h1 _ _ _ _ _ => exact hsame (by rw [h1])
@@ -417,7 +528,9 @@ theorem sim_step (ops : FloatOps F) {h h' : HcPair F} {s : Sys} (hi : PairInv h)
             adv := hr.adv
             log := hr.log
             seen := hr.seen
-            net := hr.net }
+            net := hr.net
+            em := hr.em
+            syncs := hr.syncs }
 
 /-- **The simulation of runs.** -/
 theorem sim_run (ops : FloatOps F) (sched : List POp) {h h' : HcPair F} {s : Sys} (hi : PairInv h)
@@ -456,5 +569,7 @@ theorem rel_init (ops : FloatOps F) (cA cB : Config) (nowA nowB : Nat) (rngA rng
     intro i d hi
     obtain ⟨p, fid, hp, _⟩ := hi
     simp [initS] at hp
+  em := rfl
+  syncs := by intro x hx; cases hx
 
 end Uflow.HcSys
